@@ -166,11 +166,11 @@ fn get_type_layout(module: &Module, ty: TypeId, mode: PackingMode) -> Option<Lay
             let mut layout = Layout { size: 0, align: 1 };
             for member in &def.members {
                 let member_layout = get_type_layout(module, member.type_id, mode)?;
-                layout.size = layout.size.next_multiple_of(member_layout.align);
-                layout.size += member_layout.size;
+                layout.size = layout.size.checked_next_multiple_of(member_layout.align)?;
+                layout.size = layout.size.checked_add(member_layout.size)?;
                 layout.align = layout.align.max(member_layout.align);
             }
-            layout.size = layout.size.next_multiple_of(layout.align);
+            layout.size = layout.size.checked_next_multiple_of(layout.align)?;
             Some(layout)
         }
         TypeLayer::StructTemplate(_) => panic!("unexpected struct template"),
@@ -181,7 +181,8 @@ fn get_type_layout(module: &Module, ty: TypeId, mode: PackingMode) -> Option<Lay
         TypeLayer::Object(_) => None,
         TypeLayer::Array(ty, Some(count)) => {
             let mut layout = get_type_layout(module, ty, mode)?;
-            layout.size *= u32::try_from(count).unwrap();
+            // The size is unknown if it does not fit in 32 bits
+            layout.size = layout.size.checked_mul(u32::try_from(count).ok()?)?;
             Some(layout)
         }
         TypeLayer::Array(_, None) => None,
@@ -199,13 +200,13 @@ fn offsets_match(module: &Module, ty: TypeId) -> Option<bool> {
             for member in &def.members {
                 let hlsl = get_type_layout(module, member.type_id, PackingMode::HlslStructuredBuffer)?;
                 let metal = get_type_layout(module, member.type_id, PackingMode::Metal)?;
-                offset_hlsl = offset_hlsl.next_multiple_of(hlsl.align);
-                offset_metal = offset_metal.next_multiple_of(metal.align);
+                offset_hlsl = offset_hlsl.checked_next_multiple_of(hlsl.align)?;
+                offset_metal = offset_metal.checked_next_multiple_of(metal.align)?;
                 if offset_hlsl != offset_metal || !offsets_match(module, member.type_id)? {
                     return Some(false);
                 }
-                offset_hlsl += hlsl.size;
-                offset_metal += metal.size;
+                offset_hlsl = offset_hlsl.checked_add(hlsl.size)?;
+                offset_metal = offset_metal.checked_add(metal.size)?;
             }
             Some(true)
         }
@@ -216,7 +217,8 @@ fn offsets_match(module: &Module, ty: TypeId) -> Option<bool> {
             let hlsl = get_type_layout(module, inner, PackingMode::HlslStructuredBuffer)?;
             let metal = get_type_layout(module, inner, PackingMode::Metal)?;
             if count > 1
-                && hlsl.size.next_multiple_of(hlsl.align) != metal.size.next_multiple_of(metal.align)
+                && hlsl.size.checked_next_multiple_of(hlsl.align)?
+                    != metal.size.checked_next_multiple_of(metal.align)?
             {
                 return Some(false);
             }
